@@ -4,6 +4,7 @@ import os
 import random
 import resource
 import shutil
+import signal
 import subprocess
 import time
 from pathlib import Path
@@ -11,7 +12,7 @@ from pathlib import Path
 import vlib
 from vlib import Check
 from checks.decoder_common import decoder_models
-from checks.reader_common import make_files, tlc_variants
+from checks.reader_common import make_files, tlc_variants, time_edges
 
 ASAN_ENV = {"ASAN_OPTIONS": "abort_on_error=1:detect_leaks=0:allocator_may_return_null=0:max_allocation_size_mb=256:"
                             "detect_stack_use_after_return=0",
@@ -73,13 +74,36 @@ def run_tool(tools, tool, path, work, idx):
         resource.setrlimit(resource.RLIMIT_STACK, (8 << 20, 8 << 20))
         resource.setrlimit(resource.RLIMIT_CORE, (0, 0))
 
+    # the time is the CPU time of the child (user + system): wall time depends on the load of the machine
+    pr = subprocess.Popen(args, stdout=subprocess.DEVNULL, stderr=subprocess.PIPE, preexec_fn=limits, env=dict(os.environ, **ASAN_ENV))
+    errbuf = []
+    import threading
+    rd = threading.Thread(target=lambda: errbuf.append(pr.stderr.read()), daemon=True)
+    rd.start()
     t0 = time.time()
-    try:
-        r = subprocess.run(args, capture_output=True, timeout=60, preexec_fn=limits, env=dict(os.environ, **ASAN_ENV))
-        rc, err = r.returncode, r.stderr[-2000:].decode("latin1")
-    except subprocess.TimeoutExpired:
+    ru = None
+    while True:
+        pid, status, ru = os.wait4(pr.pid, os.WNOHANG)
+        if pid == pr.pid:
+            break
+        if time.time() - t0 > 300:          # (the CPU limit of 20 s ends a busy child long before)
+            pr.kill()
+            pid, status, ru = os.wait4(pr.pid, 0)
+            status = None
+            break
+        time.sleep(0.005)
+    rd.join(5)
+    err = (errbuf[0] if errbuf else b"")[-2000:].decode("latin1")
+    if status is None:
+        rc = 124
+    elif os.WIFSIGNALED(status):
+        rc = -os.WTERMSIG(status)
+    else:
+        rc = os.WEXITSTATUS(status)
+    pr.returncode = rc
+    ms = int((ru.ru_utime + ru.ru_stime) * 1000)
+    if rc == -signal.SIGXCPU or rc == -signal.SIGKILL and ms >= 19000:
         rc, err = 124, "timeout"
-    ms = int((time.time() - t0) * 1000)
     if rc == 0:
         outcome = "ok"
     elif rc == 124:
@@ -161,7 +185,7 @@ def inproc(work, exe, mode, paths, label):
 def run(tier):
     chk = Check("C03", tier, "exploration")
     chk.rule = ("inputs: TLC-generated structure-aware mutants of real files (Rewrite!Mut: length fields up to 2^64-1, "
-                "out-of-range indices, wrong major types, nesting, boundary integers, malformed names), hand-made extremes "
+                "alone and together with huge preamble parameters, out-of-range indices, wrong major types, nesting, boundary integers, malformed names), hand-made extremes "
                 "(nesting up to 10^6, every length form, indefinite chunks announcing 2^47 bytes), random bytes, flipped and "
                 "truncated valid files; entry points: every CdnsDecoder operation, CdnsReader + read_generic_*, every "
                 "string() renderer (in-process, ASan+UBSan, allocation cap 256 MiB, 8 MiB stack) and the five tools as child "
@@ -178,6 +202,12 @@ def run(tier):
     # every length / count / value field of a few files replaced by a huge number, one at a time
     lf = sorted(files, key=lambda f: f.stat().st_size)[: (3 if tier == "quick" else 12)]
     mutants += [(f, 2000 + v, b) for f, v, b in tlc_variants(work, lf, "lengths", 260 if tier == "quick" else 900, chk.seed)]
+    # ... and the same sweep over the length fields with every number of the file preamble huge at the same time
+    mutants += [(f, 4000 + v, b) for f, v, b in tlc_variants(work, lf[:2] if tier == "quick" else lf, "lengths2",
+                                                             120 if tier == "quick" else 600, chk.seed)]
+    # boundary instants: the earliest-time of every block just below 2^63 ticks (for each common rate), offsets unchanged
+    edges = time_edges()
+    mutants += [(f, 6000 + v, b) for f, v, b in tlc_variants(work, files, "times", len(edges), chk.seed, edges=edges)]
     idir = work / "inputs"
     idir.mkdir()
     paths = []
